@@ -1,5 +1,7 @@
 F = "linker-utils/src/x86_64.rs"
 A = "linker-utils/src/aarch64.rs"
+R = "linker-utils/src/riscv64.rs"
+L = "linker-utils/src/loongarch64.rs"
 SPEC = dict(
     id="C12",
     level_text="Bounded model checking, exhaustive in the value dimension: for a symbolic r_type drawn from the reference "
@@ -8,8 +10,9 @@ SPEC = dict(
                "field (no silent truncation).",
     level_note="Reference interval table transcribed from binutils howto tables and lld's relocate() (cited in the harness); "
                "Kani/CBMC trusted; format! stubbed.",
-    overlays=[(F, "harness/linker-utils/x86_64.rs"), (A, "harness/linker-utils/aarch64.rs")],
-    jobs=6,
+    overlays=[(F, "harness/linker-utils/x86_64.rs"), (A, "harness/linker-utils/aarch64.rs"),
+              (R, "harness/linker-utils/riscv64.rs"), (L, "harness/linker-utils/loongarch64.rs")],
+    jobs=9,
     harnesses=[
         dict(fn="c12_x86_64_ranges", file=F, timeout=600, witness=True),
         dict(fn="c12_x86_64_ranges_known_rows", file=F, timeout=600),
@@ -17,10 +20,13 @@ SPEC = dict(
         dict(fn="c12_x86_64_reference_covers_table", file=F, timeout=300),
         dict(fn="c12_aarch64_ranges", file=A, timeout=900),
         dict(fn="c12_aarch64_ranges_known_rows", file=A, timeout=600),
+        dict(fn="c12_riscv_ranges", file=R, timeout=900),
+        dict(fn="c12_riscv_ranges_known_rows", file=R, timeout=600),
+        dict(fn="c12_loongarch_ranges", file=L, timeout=900),
     ],
-    functions_encoded=["linker_utils::x86_64::relocation_from_raw", "elf::RelocationKindInfo::write_to_buffer",
+    functions_encoded=["linker_utils::x86_64::relocation_from_raw", "aarch64/riscv64/loongarch64::relocation_type_from_raw", "elf::RelocationKindInfo::write_to_buffer",
                        "RelocationKindInfo::verify", "AllowedRange::contains", "AllowedRange::from_bit_size"],
-    bounds="every r_type in the reference table x all 2^64 values x arbitrary 9 initial buffer bytes",
+    bounds="every r_type in the four reference tables (x86-64 complete; AArch64/RISC-V/LoongArch rows whose GNU ld and lld behaviour is established) x all 2^64 values x arbitrary initial buffer bytes",
     outside_bounds="which formula produces the value (apply_relocation); APX CODE_n variants are only checked to be signed-32 4-byte rows",
     stubs=["std::fmt::format -> empty String"],
 )
